@@ -2,6 +2,9 @@ package rules
 
 import (
 	"fmt"
+	"go/constant"
+	"go/token"
+	"go/types"
 	"strings"
 
 	"dvcheck/internal/eng"
@@ -54,6 +57,22 @@ func runC03(k *eng.Check, tier string) {
 			}
 		}
 		k.OnlyAfter("root-record-before-exit", fn, "success exit only after writeRootHashRecord", exits, 1, eng.CallSet(fn, mWriteRootRe))
+		// the writer's notion of the current root (re-committed by intermediate syncs) is updated to the
+		// root being committed before the commit is acknowledged
+		crStores := eng.NewSet()
+		for _, st := range eng.FieldStores(fn, `store/nbs\.journalWriter$`, "currentRoot") {
+			// the stored value is the root handed to writeRootHashRecord
+			same := false
+			for _, r := range recs {
+				if len(r.Common().Args) == 2 && st.(*ssa.Store).Val == r.Common().Args[1] {
+					same = true
+				}
+			}
+			if same {
+				crStores.AddI(st)
+			}
+		}
+		k.OnlyAfter("current-root-before-ack", fn, "a success exit is reached only after journalWriter.currentRoot was set to the committed root", exits, 1, crStores)
 		for _, r := range recs {
 			after := eng.After(r.(ssa.Instruction))
 			k.OnlyAfter("flush-before-sync", fn, "after the root record is buffered, fsync is reached only after a successful flush (WriteAt)", syncCalls, 1, flushOK, after)
@@ -211,6 +230,60 @@ func runC03(k *eng.Check, tier string) {
 		cb := eng.CallSet(fn, eng.Named(`^dyn:param:cb$`))
 		k.OnlyAfter("record-validated-before-use", fn, "cb receives a record only after validateJournalRecord returned nil", cb, 1, k.OkCalls(fn, "validate", eng.Static("store/nbs.validateJournalRecord")))
 		k.OnlyAfter("record-validated-before-use", fn, "cb receives a record only after readJournalRecord returned nil", cb, 1, k.OkCalls(fn, "readrec", eng.Static("store/nbs.readJournalRecord")))
+		// every way of stopping at a record that cannot be used (zero length, oversized length, record
+		// past EOF, checksum/validation failure) reports recovered=true, which is what triggers the data-loss scan
+		res := fn.Signature.Results()
+		ri := -1
+		for i := 0; i < res.Len(); i++ {
+			if b, ok := res.At(i).Type().Underlying().(*types.Basic); ok && b.Kind() == types.Bool {
+				ri = i
+			}
+		}
+		if ri < 0 {
+			k.Unknown("recovery-flag", eng.Name(fn), "the boolean `recovered` result", "not found")
+		} else {
+			isLen := func(v ssa.Value) bool { return eng.MentionsDeep(v, eng.IsCall(eng.Static("store/nbs.readUint32"))) }
+			entries := map[string]*eng.Set{
+				"zero-length record": eng.CondEdgesP(fn, func(v ssa.Value) bool {
+					b, ok := eng.IsCompare(v, token.EQL)
+					return ok && isLen(b.X) && isConstInt(b.Y, 0)
+				}, true),
+				"oversized record length": eng.CondEdgesP(fn, func(v ssa.Value) bool {
+					b, ok := eng.IsCompare(v, token.GTR)
+					return ok && isLen(b.X) && !isConstInt(b.Y, 0)
+				}, true),
+				"record extends past the end of the file": eng.CondEdgesP(fn, func(v ssa.Value) bool {
+					b, ok := eng.IsCompare(v, token.NEQ)
+					if !ok {
+						return false
+					}
+					ex, ok := b.X.(*ssa.Extract)
+					if !ok {
+						return false
+					}
+					call, ok := ex.Tuple.(*ssa.Call)
+					return ok && eng.Static("(*bufio.Reader).Peek")(call) && len(call.Call.Args) == 2 && isLen(call.Call.Args[1])
+				}, true),
+				"record fails validation (checksum)": eng.CondEdgesP(fn, func(v ssa.Value) bool {
+					b, ok := eng.IsCompare(v, token.NEQ)
+					return ok && eng.IsCall(eng.Static("store/nbs.validateJournalRecord"))(b.X)
+				}, true),
+			}
+			for what, es := range entries {
+				if es.Len() < 1 {
+					k.Unknown("recovery-flag", eng.Name(fn)+"#"+what, "recovery entry", "the test was not found")
+					continue
+				}
+				vals, unknown := eng.ResultValuesFromEdges(fn, es, ri)
+				ok := !unknown && len(vals) > 0
+				for _, v := range vals {
+					if !eng.IsConstBool(v, true) {
+						ok = false
+					}
+				}
+				k.Require("recovery-flag", eng.Name(fn)+"#"+what, "stopping at an unusable record ("+what+") reports recovered=true so that the data-loss scan runs", ok, c.Pos(fn.Pos()), "a path from this stop condition returns recovered != true: damage followed by valid records would be truncated silently")
+			}
+		}
 		k.OnlyAfter("record-validated-before-use", fn, "cb receives a record only past the maximum-length comparison", cb, 1, eng.CondEdges(fn, `> \*global:store/nbs\.journalWriterBuffSize\)$`, false))
 	}
 }
@@ -231,4 +304,15 @@ func readOnlyEdges(fn *ssa.Function, cannotWrite bool) *eng.Set {
 	// test of !readOnly() (canCreate / canWrite): false edge = cannot write
 	s.Union(eng.CondEdges(fn, `^!call:\(\*store/nbs\.journalManifest\)\.readOnly\(`, !cannotWrite))
 	return s
+}
+
+func isConstInt(v ssa.Value, n int64) bool {
+	c, ok := v.(*ssa.Const)
+	if !ok || c.Value == nil {
+		return false
+	}
+	if x, isInt := constant.Int64Val(constant.ToInt(c.Value)); isInt {
+		return x == n
+	}
+	return false
 }
